@@ -137,4 +137,109 @@ theorem step_appSend (l : ALink) (s : Side) (p : Payload) (ok : Bool) (h : SyncI
   · have : astep l (.appSend s p ok) = l := by simp only [astep, hc]; rfl
     rw [this]; exact h
 
+theorem astep_deliverA {l : ALink} {f : AFrame} {rest : List AFrame} (hq : l.toA = f :: rest)
+    (hst : l.a.st ≠ .disc) :
+    (astep l (.deliverNext .A)).i = l.i ∧ (astep l (.deliverNext .A)).a = (arecv l.a f).c ∧
+    (astep l (.deliverNext .A)).toA = rest ∧ (astep l (.deliverNext .A)).toI = l.toI ++ (arecv l.a f).wr := by
+  simp [astep, ALink.queueTo, hq, ALink.conn, hst, ALink.pop, ALink.absorb]
+
+theorem astep_deliverI {l : ALink} {f : AFrame} {rest : List AFrame} (hq : l.toI = f :: rest)
+    (hst : l.i.st ≠ .disc) :
+    (astep l (.deliverNext .I)).i = (arecv l.i f).c ∧ (astep l (.deliverNext .I)).a = l.a ∧
+    (astep l (.deliverNext .I)).toA = l.toA ++ (arecv l.i f).wr ∧ (astep l (.deliverNext .I)).toI = rest := by
+  simp [astep, ALink.queueTo, hq, ALink.conn, hst, ALink.pop, ALink.absorb]
+
+theorem step_deliverA (l : ALink) (hs : SafeInv l) (h : SyncInv' l) : SyncInv' (astep l (.deliverNext .A)) := by
+  cases hq : l.toA with
+  | nil =>
+    have : astep l (.deliverNext .A) = l := by simp [astep, ALink.queueTo, hq]
+    rw [this]; exact h
+  | cons f rest =>
+    rcases h.phases with ⟨_, _, hA, _⟩ | ⟨h1, h2, h3, hI, hA, hlt⟩ | ⟨_, hA⟩ | ⟨h3, hi, ha⟩
+    · simp [hA] at hq
+    · obtain ⟨e1, e2, e3, e4⟩ := astep_deliverA hq (by simp [h2])
+      rw [hA] at hq
+      obtain ⟨rfl, rfl⟩ := List.cons.inj hq
+      have := step_p1 h1 h2 h3 hlt hs.1.e1 hs.2.s2
+      apply mk2
+      · rw [e1, e2, e4, hI, List.nil_append]; exact this
+      · exact e3
+    · simp [hA] at hq
+    · have hst : l.a.st ≠ .disc := by rcases h3.2.1 with h | h <;> simp [h]
+      obtain ⟨e1, e2, e3, e4⟩ := astep_deliverA hq hst
+      rw [hq] at h3
+      obtain ⟨r1, r2⟩ := recv3 h3 hs.2.e1 hs.2.keys
+      apply mk3
+      · rw [e1, e2, e3, e4]; exact r1
+      · rw [e1]; exact hi
+      · rw [e2, r2]; exact ha
+
+theorem step_deliverI (l : ALink) (hs : SafeInv l) (h : SyncInv' l) : SyncInv' (astep l (.deliverNext .I)) := by
+  cases hq : l.toI with
+  | nil =>
+    have : astep l (.deliverNext .I) = l := by simp [astep, ALink.queueTo, hq]
+    rw [this]; exact h
+  | cons f rest =>
+    rcases h.phases with ⟨_, _, _, hI⟩ | ⟨_, _, _, hI, _⟩ | ⟨h2, hA⟩ | ⟨h3, hi, ha⟩
+    · simp [hI] at hq
+    · simp [hI] at hq
+    · obtain ⟨e1, e2, e3, e4⟩ := astep_deliverI hq (by simp [h2.1])
+      have ha := h2.2.2.2.1
+      rw [hq] at h2
+      obtain ⟨r1, r2⟩ := step_p2 h2 hs.2.e1
+      apply mk3
+      · rw [e1, e2, e3, e4, hA, List.nil_append]; exact r1
+      · rw [e1]; exact r2
+      · rw [e2]; exact ha
+    · have hst : l.i.st ≠ .disc := by rcases h3.1 with h | h <;> simp [h]
+      obtain ⟨e1, e2, e3, e4⟩ := astep_deliverI hq hst
+      have h3' := h3.symm
+      rw [hq] at h3'
+      obtain ⟨r1, r2⟩ := recv3 h3' hs.1.e1 hs.1.keys
+      apply mk3
+      · rw [e1, e2, e3, e4]; exact r1.symm
+      · rw [e1, r2]; exact hi
+      · rw [e2]; exact ha
+
+/-- `SyncInv'` is inductive relative to `SafeInv` (of the pre-state) -/
+theorem syncInv'_step (l : ALink) (ev : AEv) (hs : SafeInv l) (h : SyncInv' l) : SyncInv' (astep l ev) := by
+  cases ev with
+  | appSend s p ok => exact step_appSend l s p ok h
+  | deliverNext to =>
+    cases to with
+    | I => exact step_deliverI l hs h
+    | A => exact step_deliverA l hs h
+  | breakConn => exact step_break l
+  | reconnect => exact step_reconnect l hs h
+
+/-- G1 with empty queues: the property's conclusion on the counters -/
+theorem sync_counters (l : ALink) (h : SyncInv l) (hq : l.quiescent = true) :
+    l.a.e = l.i.o ∧ l.i.e = l.a.o := by
+  simp only [ALink.quiescent, Bool.and_eq_true, decide_eq_true_eq, List.isEmpty_iff] at hq
+  obtain ⟨⟨⟨hi, ha⟩, hA⟩, hI⟩ := hq
+  rcases h.1 with ⟨h1, _⟩ | ⟨h1, _⟩ | ⟨h1, _⟩ | ⟨_, _, _, _, _, d1, d2⟩
+  · simp [hi] at h1
+  · simp [hi] at h1
+  · simp [hi] at h1
+  · have c1 := (d1.1 ha).1
+    have c2 := (d2.1 hi).1
+    rw [hA] at c1
+    rw [hI] at c2
+    exact ⟨c1, c2⟩
+
+theorem syncInv_init : SyncInv { i := ⟨.disc, true, 1, 1, 0, []⟩, a := ⟨.disc, false, 1, 1, 0, []⟩ } :=
+  syncInv'_init.1
+
+/-- `SyncInv` as stated in `Model/LinkInv.lean` is NOT inductive, even relative to `SafeInv` of both states and
+`Bounded`: phase (1) allows `A.e = I.o` (the Logon in flight is numbered `I.o - 1 < A.e`), and then the acceptor
+answers the Logon with a Logout ("MsgSeqNum too low").  `SyncInv'` excludes the state by `A.e < I.o`. -/
+theorem syncInv_not_inductive :
+    ∃ (l : ALink) (ev : AEv), SafeInv l ∧ SyncInv l ∧ SafeInv (astep l ev) ∧ Bounded (astep l ev) ∧
+      ¬ SyncInv (astep l ev) :=
+  ⟨{ i := ⟨.sent, true, 1, 2, 0, [(1, none)]⟩, a := ⟨.conn, false, 2, 1, 0, []⟩, toA := [⟨1, .logon⟩],
+     wireI := [⟨1, .logon⟩] }, .deliverNext .A, by decide⟩
+
+theorem sync_counters' (l : ALink) (h : SyncInv' l) (hq : l.quiescent = true) :
+    l.a.e = l.i.o ∧ l.i.e = l.a.o := sync_counters l h.1 hq
+
 end AsyncFix.Link
